@@ -71,6 +71,22 @@ class IntoIt(It):
         v = self.elems[self.i]; self.i += 1; return v
 
 
+class LazyIntoIt(It):
+    """vec::IntoIter over a Vec whose length is still symbolic: the length is concretised (forking) only when elements are pulled one by one"""
+    def __init__(self, vec): self.vec, self.inner = vec, None
+    def next(self, M):
+        if self.inner is None:
+            n = M.concrete(self.vec.len, 'into_iter.len'); self.inner = IntoIt(self.vec.elems[:n])
+        return self.inner.next(M)
+
+
+PURE_FN = re.compile(r'^<.+ as (Into<.+>|From<.+>|ToOwned|ToString|Clone)>::(into|from|to_owned|to_string|clone)$')
+
+
+def is_pure_fn(f):
+    return isinstance(f, FnItem) and PURE_FN.match(f.name) is not None
+
+
 class MapIt(It):
     def __init__(self, inner, f): self.inner, self.f = inner, f
     def next(self, M):
@@ -162,8 +178,8 @@ def to_iter(M, v):
         if isinstance(t, It): return t
         return SeqIt(v)
     if isinstance(v, VecV):
-        n = M.concrete(v.len, 'into_iter.len')
-        return IntoIt(v.elems[:n])
+        if z3.is_bv_value(z3.simplify(tobv64(v.len))): return IntoIt(v.elems[:M.concrete(v.len)])
+        return LazyIntoIt(v)
     if isinstance(v, list) and len(v) == 2 and z3.is_bv(v[0]) and z3.is_bv(v[1]): return v     # Range
     if isinstance(v, list): return IntoIt(v)
     if isinstance(v, ValSlice): return SeqIt(v)
@@ -210,7 +226,17 @@ def drain(M, it):
 
 
 def m_collect_vec(M, a, c, fr):
-    xs = drain(M, to_iter(M, a[0]))
+    it = to_iter(M, a[0])
+    # a chain of pure element-wise maps over a whole Vec keeps the (symbolic) length: no forking
+    fs, cur = [], it
+    while isinstance(cur, MapIt) and is_pure_fn(cur.f): fs.append(cur.f); cur = cur.inner
+    if isinstance(cur, LazyIntoIt) and cur.inner is None:
+        out = []
+        for e in cur.vec.elems:
+            for f in reversed(fs): e = M.call_value(f, [e])
+            out.append(e)
+        return VecV(cur.vec.len, out)
+    xs = drain(M, it)
     return VecV(BV64(len(xs)), xs)
 
 
@@ -368,8 +394,32 @@ def m_join(M, a, c, fr):
 # ----------------------------------------------------------------------------- Option / Result
 def m_opt_map(M, a, c, fr):
     o = a[0]
+    if not isinstance(o.discr, int) and is_pure_fn(a[1]) and 1 in o.payloads:
+        return EnumV('Option', o.discr, {0: [], 1: [M.call_value(a[1], [o.payloads[1][0]])]})
     if is_variant(M, o, 1, 'Option::map'): return opt_some(M.call_value(a[1], [payload(o, 1)[0]]))
     return opt_none()
+
+
+def m_opt_filter(M, a, c, fr):
+    o = a[0]
+    if not is_variant(M, o, 1, 'Option::filter'): return opt_none()
+    v = payload(o, 1)[0]
+    return opt_some(v) if M.concrete_bool(M.call_value(a[1], [Ref(Cell(v))]), 'Option::filter') else opt_none()
+
+
+def m_opt_and_then(M, a, c, fr):
+    o = a[0]
+    return M.call_value(a[1], [payload(o, 1)[0]]) if is_variant(M, o, 1, 'Option::and_then') else opt_none()
+
+
+def m_opt_ok_or(M, a, c, fr):
+    o = a[0]
+    return res_ok(payload(o, 1)[0]) if is_variant(M, o, 1, 'Option::ok_or') else res_err(a[1])
+
+
+def m_opt_copied(M, a, c, fr):
+    o = a[0]
+    return opt_some(clone_val(deref(M, payload(o, 1)[0]))) if is_variant(M, o, 1, 'Option::copied') else opt_none()
 
 
 def m_opt_map_or(M, a, c, fr):
@@ -694,6 +744,7 @@ MODELS = [
     (r'BTreeMap::<.*>::get::<.*>', m_map_get), (r'BTreeMap::<.*>::insert', m_map_insert), (r'BTreeMap::<.*>::iter', m_map_iter),
     # Option / Result
     (r'Option::<.*>::map::<.*>', m_opt_map), (r'Option::<.*>::map_or::<.*>', m_opt_map_or),
+    (r'Option::<.*>::filter::<.*>', m_opt_filter), (r'Option::<.*>::and_then::<.*>', m_opt_and_then), (r'Option::<.*>::ok_or::<.*>', m_opt_ok_or), (r'Option::<.*>::copied', m_opt_copied),
     (r'Option::<.*>::unwrap_or', m_opt_unwrap_or), (r'Option::<.*>::cloned', m_opt_cloned),
     (r'Option::<.*>::is_some', m_opt_is_some), (r'Option::<.*>::is_none', m_opt_is_none), (r'Option::<.*>::as_ref', m_opt_as_ref),
     (r'Option::<.*>::(expect|unwrap)', m_opt_expect),
